@@ -171,7 +171,7 @@ func vfE1NewNumEnv(t *testing.T) *vfE1NumEnv {
 	opts.MemQueueSize = 100000
 	opts.QueueScanInterval = time.Hour
 	opts.QueueScanRefreshInterval = time.Hour
-	tcpAddr, httpAddr, nsqd := mustStartNSQD(opts)
+	tcpAddr, httpAddr, nsqd := vfStartNSQD(opts)
 	e := &vfE1NumEnv{t: t, nsqd: nsqd, tcpAddr: tcpAddr, httpAddr: httpAddr, prot: &protocolV2{nsqd: nsqd}, hist: map[string]int{}}
 	e.ch = nsqd.GetTopic("vf_num").GetChannel("ch")
 	e.wch = nsqd.GetTopic("vf_numw").GetChannel("ch")
